@@ -5,7 +5,7 @@ atoms; the code's paths are compared with it by rxv.table.check_table.
 """
 from ..engine import rule, ok, bad, missing
 import re
-from ..table import check_table, render, summarize
+from ..table import check_table, render, summarize, strip_ver
 from ..sym import show
 
 OC = "operation::OperationControl"
@@ -76,21 +76,32 @@ def newline_const(ctx):
             out.append(ok("is_new_line"))
         else:
             out.append(bad("is_new_line", "is_new_line must be search[i] == U+000A; found %s" % sorted(rs), b.loc()))
-    # closures of ReMatcher::matches that compare a char with a constant: all must use U+000A
-    cl = [x for x in ctx.f.bodies if x.path.startswith("re_matcher::ReMatcher::matches::{closure")]
-    n = 0
-    for c in cl:
+    # every comparison of an input character with a constant in ReMatcher::matches (the newline scan of the
+    # multi-line '^' seek, wherever it is written: in the function or in a closure handed to find / position) is a
+    # comparison with U+000A
+    mb = ctx.body("re_matcher::ReMatcher::matches")
+    consts = {}
+    bodies = ([mb] if mb is not None else []) + [x for x in ctx.f.bodies if x.path.startswith("re_matcher::ReMatcher::matches::{closure")]
+    for c in bodies:
         ctx.body(c.path)
-        w = ctx.walk(c)
-        for p in w.paths:
-            r = ret(p)
-            if "eq('" in r:
-                n += 1
-                if r.startswith("eq('\\u{A}',"):
-                    out.append(ok("seek|" + c.path.split("::")[-1]))
-                else:
-                    out.append(bad("seek|" + c.path.split("::")[-1], "line seek compares with %s, not U+000A" % r, c.loc()))
-    if n == 0:
+        se = ctx.senv(c)
+        texts = []
+        for sw in range(len(c.blocks)):
+            tt = c.blocks[sw]["term"]
+            if tt["k"] == "switch" and not c.blocks[sw]["cleanup"]:
+                texts.append(strip_ver(render(se.switch_expr(sw))))
+        for p in ctx.walk(c, max_visits=1).paths:
+            if p.ret is not None:
+                texts.append(strip_ver(render(p.ret)))
+        for s in texts:
+            for m in re.finditer(r"eq\('((?:\\u\{[0-9A-Fa-f]+\}|\\.|[^'])+)', ", s):
+                consts.setdefault(m.group(1), c)
+    for k, c in sorted(consts.items()):
+        if k == "\\u{A}":
+            out.append(ok("seek|newline"))
+        else:
+            out.append(bad("seek|" + k, "ReMatcher::matches compares an input character with %s, not U+000A" % k, c.loc()))
+    if not consts:
         out.append(missing("newline comparison in the line seek of ReMatcher::matches"))
     return out
 
